@@ -460,8 +460,24 @@ func (g *Gen) byKind(kind string) Op {
 		if len(roles) == 0 {
 			return g.byKind("setrole")
 		}
-		r := roles[g.pick("unset-role", len(roles))]
-		return callOp(g.sysCall(g.shard(p[0]), vmcommon.BuiltInFunctionUnSetESDTRole, p[0], p[1], r))
+		// 1..3 roles in any order; the list may also name roles the account does not hold (those are skipped), but never
+		// the create role
+		n := 1 + g.pick("unset-n", 3)
+		list := [][]byte{}
+		for i := 0; i < n; i++ {
+			if g.pick("unset-held", 3) > 0 {
+				list = append(list, roles[g.pick("unset-role", len(roles))])
+			} else {
+				r := allRoles[g.pick("unset-any", len(allRoles))]
+				if r != vmcommon.ESDTRoleNFTCreate {
+					list = append(list, []byte(r))
+				}
+			}
+		}
+		if len(list) == 0 {
+			list = [][]byte{roles[0]}
+		}
+		return callOp(g.sysCall(g.shard(p[0]), vmcommon.BuiltInFunctionUnSetESDTRole, p[0], append([][]byte{p[1]}, list...)...))
 	case "transfer":
 		if len(g.holdings("F")) == 0 && g.pick("pre-tr", 8) > 0 {
 			return g.byKind("issue")
